@@ -34,7 +34,8 @@
 (***************************************************************************)
 EXTENDS Integers, Sequences, TLC, Json
 
-CONSTANTS Tol          \* tolerance in scaled units
+CONSTANTS Tol,         \* tolerance in scaled units
+          GTol         \* stationarity tolerance of numeric estimators (gradient scaled by 1e9)
 
 Trace == ndJsonDeserialize("em_trace.ndjson")
 
@@ -89,7 +90,14 @@ ReturnErr == /\ IsEv("return") /\ Ev.err /\ st # "idle"
 Abort == /\ IsEv("abort") /\ st \in {"iterating", "maybe"}
          /\ st' = "idle" /\ UNCHANGED <<k, likPrev, recPrev, eps, maxSteps>>
 
-Next == Begin \/ Hook0 \/ HookI \/ HookMaybe \/ Return \/ ReturnErr \/ Abort
+(* a numeric estimator (logistic regression by SAGA) "stops at a stationary point": the gradient of   *)
+(* the weighted log-likelihood, recomputed by the recorder from the data at the returned parameters, *)
+(* vanishes up to GTol (per observation); an error return promises nothing                           *)
+Numeric == /\ IsEv("numeric") /\ st = "idle"
+           /\ (Ev.err \/ Ev.gnorm <= GTol * Ev.n)
+           /\ UNCHANGED <<st, k, likPrev, recPrev, eps, maxSteps>>
+
+Next == Begin \/ Hook0 \/ HookI \/ HookMaybe \/ Return \/ ReturnErr \/ Abort \/ Numeric
 Spec == Init /\ [][Next]_vars
 
 HighWater == TLCSet(1, IF TLCGet(1) < l THEN l ELSE TLCGet(1))
